@@ -19,7 +19,6 @@ if "--tier" in sys.argv:
 confirm = "--confirm" in sys.argv
 tmp = tempfile.mkdtemp(prefix="vfseed_")
 res = {"dir": d}
-saved = {f: open(os.path.join(here, "evidence", f)).read() for f in os.listdir(os.path.join(here, "evidence"))}
 try:
     dst = os.path.join(tmp, "repo")
     shutil.copytree("/repo", dst, ignore=shutil.ignore_patterns(".git", "__pycache__", "docsite", "benchmarks"))
@@ -38,12 +37,10 @@ try:
         res["baseline_rc"] = r.returncode
         res["baseline"] = r.stdout.strip().splitlines()[0] if r.stdout else ""
     for p in props:
-        e = dict(os.environ, VERIF_REPO=dst)
+        e = dict(os.environ, VERIF_REPO=dst, VERIF_EVIDENCE_DIR=os.path.join(tmp, "evidence"))
         r = subprocess.run([os.path.join(here, "check"), p, "--tier", tier, "--no-shrink"], env=e, capture_output=True, text=True, cwd=here)
         sigs = [l[:200] for l in r.stdout.splitlines() if l.startswith("violation signature")]
         res[p] = {"rc": r.returncode, "verdict": {0: "MISSED", 1: "CAUGHT"}.get(r.returncode, "HARNESS-ERR"), "sigs": sigs[:3], "tail": r.stdout.strip().splitlines()[-1][:200] if r.stdout.strip() else r.stderr[-300:]}
 finally:
     shutil.rmtree(tmp, ignore_errors=True)
-    for f, s in saved.items():
-        open(os.path.join(here, "evidence", f), "w").write(s)
 print(json.dumps(res, indent=1))
